@@ -671,6 +671,12 @@ func latestRule(p *Prog, r *Report, rule string) {
 				}
 			}
 			hist := depOnField(w.Val, "PeerSets") || depOnCall(w.Val, storeM("GetAllPeerSets"))
+			if hist && !same {
+				if why := notRunningMax(fn, w.Val); why != "" {
+					r.Fail(rule, name+":validators<-latest", p.ipos(w.Instr), fnName(fn), "core.validators is picked from the frame's peer-set history, but not as the entry with the GREATEST round ("+why+"): with two changes pending at the anchor the node may keep the older set, and the next accepted receipt is applied to a stale base")
+					continue
+				}
+			}
 			r.Check(same || hist, rule, name+":validators<-latest", p.ipos(w.Instr), fnName(fn),
 				"validators updated to the set just recorded / the latest of the history",
 				"core.validators is set to the peer set of one particular round ("+describeVal(w.Val)+") although the frame's peer-set history may already contain later entries: the next accepted join/leave is applied to a stale base")
@@ -939,4 +945,87 @@ func dominatesBlock(a, b *ssa.BasicBlock) bool {
 		return true
 	}
 	return a.Parent() == b.Parent() && len(a.Parent().Blocks) > 0 && !reachesAvoiding(a.Parent().Blocks[0], b, a)
+}
+
+// notRunningMax: v is selected inside a loop over a round -> peers map in fn. Returns "" when the
+// selection is a running maximum over the keys (`if r > best { best, sel = r, ps }`, best carried
+// by the loop) or when v is not selected in such a loop; otherwise the reason.
+func notRunningMax(fn *ssa.Function, v ssa.Value) string {
+	loops := naturalLoops(fn)
+	for _, lp := range loops {
+		if !isMapRangeLoop(fn, lp) {
+			continue
+		}
+		var next *ssa.Next
+		for b := range lp.body {
+			for _, in := range b.Instrs {
+				if nx, ok := in.(*ssa.Next); ok {
+					if il := innermostLoop(loops, b); il != nil && il.head == lp.head {
+						next = nx
+					}
+				}
+			}
+		}
+		if next == nil {
+			continue
+		}
+		isKey := func(x ssa.Value) bool {
+			e, ok := unwrap(x).(*ssa.Extract)
+			return ok && e.Tuple == ssa.Value(next) && e.Index == 1
+		}
+		isVal := func(x ssa.Value) bool {
+			e, ok := unwrap(x).(*ssa.Extract)
+			return ok && e.Tuple == ssa.Value(next) && e.Index == 2
+		}
+		// the selection phi at the loop head
+		for _, in := range lp.head.Instrs {
+			sel, ok := in.(*ssa.Phi)
+			if !ok {
+				break
+			}
+			if !dependsOn(v, func(x ssa.Value) bool { return x == ssa.Value(sel) }) {
+				continue
+			}
+			selected := false
+			for i, e := range sel.Edges {
+				if unwrap(e) == ssa.Value(sel) {
+					continue // carried over unchanged
+				}
+				if !isVal(e) && !flowsFromLocal(e, isVal) {
+					continue
+				}
+				selected = true
+				from := lp.head.Preds[i]
+				// a loop-carried "best key" phi updated with the key on the same edge
+				var best *ssa.Phi
+				for _, in2 := range lp.head.Instrs {
+					m, ok := in2.(*ssa.Phi)
+					if !ok {
+						break
+					}
+					if i < len(m.Edges) && (isKey(m.Edges[i]) || flowsFromLocal(m.Edges[i], isKey)) {
+						best = m
+					}
+				}
+				if best == nil {
+					return "the round of the entry kept is not remembered from one iteration to the next"
+				}
+				q := func(l Lit) bool {
+					a, b, strict, ok := cmpLit(l)
+					return ok && strict && isKey(a) && unwrap(b) == ssa.Value(best)
+				}
+				g := false
+				if gProg != nil {
+					g, _ = gProg.allPathsEdge(from, lp.head, []Pred{q}, all(1))
+				}
+				if !g {
+					return "an entry replaces the one kept without its round having been compared (>) with the round of the one kept"
+				}
+			}
+			if selected {
+				return ""
+			}
+		}
+	}
+	return ""
 }
